@@ -78,7 +78,18 @@ def fl(x):
     return None if x is None else float(F(x))
 
 
+class SkipOp(Exception):
+    """the argument of the operation could not be constructed (not a call on the CQM at all)"""
+
+
 def build_model(desc):
+    try:
+        return _build_model(desc)
+    except Exception as e:  # noqa
+        raise SkipOp(str(e))
+
+
+def _build_model(desc):
     if desc.get("bqm"):
         return gen.build_bqm(desc, dtype={"f32": np.float32, "f64": np.float64, "obj": object}[desc["bqm"]])
     return gen.build_qm(desc)
@@ -387,7 +398,9 @@ def fresh_con(rng, cqm, p_dup=0.05):
     cs = list(cqm.constraints)
     if cs and rng.random() < p_dup:
         return rng.choice(cs)
-    free = [l for l in CON_POOL if l not in cqm.constraints]
+    free = [l for l in CON_POOL + ['m', 'n', 8] if l not in cqm.constraints]
+    if not free:
+        free = [f"z{i}" for i in range(20) if f"z{i}" not in cqm.constraints]
     return rng.choice(free)
 
 
@@ -424,7 +437,7 @@ def rand_desc(rng, cqm, binary_only=False, linear_only=False, ones=False):
         i = rng.randrange(len(vars_))
         l, vt, lb, ub = vars_[i]
         if vt in ('INTEGER', 'REAL') and rng.random() < 0.5:
-            vars_[i] = [l, vt, lb, str(F(ub) + 1)]
+            vars_[i] = [l, vt, lb, str(F(ub) + 1 if F(ub) < 2 ** 52 else F(ub) - 1)]
         else:
             vt2 = rng.choice([x for x in ('BINARY', 'SPIN', 'INTEGER') if x != vt])
             lb2, ub2 = {'BINARY': ('0', '1'), 'SPIN': ('-1', '1'), 'INTEGER': ('0', '4')}[vt2]
@@ -776,7 +789,7 @@ class R:
         return cnat(self.TC.idx(l))
 
     def oq(self, x):
-        return copt(None if x is None else cq(F(x)))
+        return copt(None if x is None else cq(F(float(F(x)))))
 
     def vinfo(self, v):
         return f"(mkV {self.v(v[0])} {v[1]} {cq(F(v[2]))} {cq(F(v[3]))})"
@@ -858,9 +871,9 @@ class R:
         if k == "relabel_cons":
             return f"(RelabelCons {clist([cpair(self.c(a), self.c(b)) for a, b in op[1]])})"
         if k == "set_lb":
-            return f"(SetLb {self.v(op[1])} {cq(F(op[2]))})"
+            return f"(SetLb {self.v(op[1])} {cq(F(float(F(op[2]))))})"
         if k == "set_ub":
-            return f"(SetUb {self.v(op[1])} {cq(F(op[2]))})"
+            return f"(SetUb {self.v(op[1])} {cq(F(float(F(op[2]))))})"
         if k == "v_add_linear":
             return f"(VAddLinear {self.tgt(op[1])} {self.v(op[2])} {cq(F(op[3]))})"
         if k == "v_set_linear":
@@ -947,6 +960,8 @@ def run_case(case):
         exc = None
         try:
             cqm2 = apply_op(cqm, op, ctx, marks)
+        except SkipOp:
+            continue
         except Exception as e:  # noqa
             exc = e
             cqm2 = cqm
